@@ -343,6 +343,11 @@ func (tw *tokenWorld) refresh(ch *kernel.Chooser) string {
 	if !subset(tr.ScopeList(), g.original) {
 		tw.viol("C07", "scope-growth", "refresh", "%s: scope %v grew beyond the original grant %v", desc, tr.ScopeList(), g.original)
 	}
+	if w.Store.PersistScopes && !subset(tr.ScopeList(), g.scopes) {
+		// this storage records a narrowed grant (the narrowing request told it so through SetCurrentScopes): along the
+		// chain the scope may only shrink
+		tw.viol("C07", "scope-growth", "refresh-chain", "%s: scope %v grew over the chain: the issuance that produced this refresh token granted %v (original grant %v) and the storage records narrowing", desc, tr.ScopeList(), g.scopes, g.original)
+	}
 	rotated := false
 	for _, j := range w.Store.JournalFor(r.Ex.ID) {
 		if j.Method == "CreateAccessAndRefreshTokens" && strings.HasSuffix(j.Args, ","+presented) {
@@ -926,6 +931,15 @@ func (tw *tokenWorld) otherGrant(ch *kernel.Chooser) string {
 			}
 			if !w.Caps.Device {
 				tw.viol("C05", "disabled-grant", "device_authorization", "%s: storage has no device capability", desc)
+			}
+			// the endpoint acted for the client the flow is stored for: that must be the client that was checked
+			if dev := w.Store.Devices[da.DeviceCode]; dev != nil && dev.State != nil {
+				sc := w.Store.Clients[dev.State.ClientID]
+				if sc == nil || !sc.HasGrant(oidc.GrantTypeDeviceCode) {
+					tw.viol("C05", "unregistered-grant", "device_authorization/stored-client", "%s: the device flow was stored for client %q, which is unknown or not registered for the device grant", desc, dev.State.ClientID)
+				} else if dev.State.ClientID != p.claimedClient() {
+					tw.viol("C05", "unauthenticated-success", "device_authorization/stored-client", "%s: the request authenticated client %q but the device flow was stored for client %q", desc, p.claimedClient(), dev.State.ClientID)
+				}
 			}
 		}
 		return desc
